@@ -164,17 +164,24 @@ class Executor(ResolutionContext):
             parent_value, self.context_value, info
         )
 
+        ended = []  # type: List[bool]
+
+        def end():
+            # The error branch below also covers errors raised while
+            # completing the value, i.e. after the field has already ended.
+            if not ended:
+                ended.append(True)
+                self.instrumentation.on_field_end(
+                    parent_value, self.context_value, info
+                )
+
         def fail(err):
             self.add_error(err, path, node)
-            self.instrumentation.on_field_end(
-                parent_value, self.context_value, info
-            )
+            end()
             return None
 
         def complete(res):
-            self.instrumentation.on_field_end(
-                parent_value, self.context_value, info
-            )
+            end()
             return self.complete_value(
                 field_definition.type, nodes, path, info, res
             )
